@@ -13,7 +13,7 @@ META = {
         "under the entry's modified-condition (read-only entries never raise, never write); (b) once the entry is found, its removal and the size adjustment happen on the normal and on "
         "every exceptional exit; (c) the class-wide flush catches (OSError, MetadataError) per collection inside the loop, records the file, continues, and raises BufferedError built from "
         "that mapping after the loop; (d) the backend-wide context pushes one capacity on entry and pops/restores it on EVERY exit path, including the one where the flush raises. "
-        "That (st_size, st_mtime_ns) differs for every outside write (file-system timing) is NOT decided."
+        "An __enter__ of that context that raises (lowering the capacity forces a flush) undoes its counter increment and its push, since __exit__ is not called then; (h) the metadata are taken by a stat call that follows symbolic links. That (st_size, st_mtime_ns) differs for every outside write (file-system timing) is NOT decided."
     ),
     "rule": "obligations per _flush implementation x force flag x buffered class kind, per exit path kind",
     "trusted_base": ["engine CFG with exception edges"],
